@@ -27,7 +27,8 @@ META = {
 
 TAGS = [None, "use.with_os=win", "use.with_os=linux", "not.with_os=win", "only.with_os=linux", "active.with_os=win", "not_active.with_os=linux",
         "use.with_ver=3", "use.with_ver=10", "not.with_ver=5", "not_active.with_ver=10", "use.with_ver=abc", "not.with_ver=", "use.with_ver=-5", "not.with_ver=+3",
-        "use.with_flag=yes", "not.with_flag=off", "use.with_flag=maybe", "use.with_flag=False", "not.with_flag=NO", "use.with_nosuch=1", "not.with_nosuch=1", "wip", "use.with_os"]
+        "use.with_flag=yes", "not.with_flag=off", "use.with_flag=maybe", "use.with_flag=False", "not.with_flag=NO", "use.with_nosuch=1", "not.with_nosuch=1", "wip", "use.with_os",
+        "use.with_os=", "not.with_os="]        # an empty value is a value (it matches the current value "")
 OS_VALUES = ["win", "linux", "", "Win"]
 POSITIVE = ("use", "only", "active")
 NEGATIVE = ("not", "not_active", "not_on")      # "not_on": custom negative prefix of the custom-prefixes variant
